@@ -8,7 +8,8 @@ OVERLAY = {"node/pkg/processor/zz_verif_proc_test.go": "processor/proc_verif_tes
 CLAUSES = {
     "C13": ("panic-",),
     "C01": ("published-vaa-", "stored-", "published-names-other-set"),
-    "C02": ("published-without-local-observation", "published-twice", "not-published-at-quorum",
+    "C04": ("signed-digest-differs-from-message",),
+    "C02": ("signed-digest-differs-from-message", "signed-under-foreign-address", "published-without-local-observation", "published-twice", "not-published-at-quorum",
             "governance-emitter-signed", "signed-without-guardian-set"),
     "C14": ("pending-entry-discarded-early", "no-retry-when-due", "retry-too-early", "unobserved-entry-not-expired",
             "completed-entry-not-expired", "unexpected-reobservation-request", "retry-budget-exceeded"),
